@@ -847,7 +847,6 @@ def oracle_embed(ctx, volume=1):
 
 
 PARTIAL = [
-    {"theorem": "perm_sorts (unbounded, semantic)", "missing": "the loop invariant 'accumulated matrix · (tensor in the original order) = tensor in the current order' is proved per step (left_perm_single_swap, typed) and as finite decide tables (calcPerm_sorts_table_three, calcPerm_sorts_table_four); proved unbounded: totality (calcPerm_total, calcPermLoop_total), termination (calcPerm_never_fuel), sortedness of the final order (calcPermLoop_sorted)"},
     {"theorem": "product_statistics for MProcess⊗MProcess", "missing": "false on the current tree (D7b open: mprocess_product_layout_fails); POVM layout proved for the raw list (povm_product_raw_layout), not through the outcome permutation"},
     {"theorem": "embed_physical / embed_statistics", "missing": "block structure proved as finite tables for 1 and 2 qutrits (embed_one_block, embed_two_block); PSD/TP preservation and the Kraus round trip of gates/m-processes are checked by the oracle only"},
 ]
